@@ -1088,6 +1088,14 @@ func (p *printer) expr1(expr ast.Expr, prec1, depth int) {
 			p.expr1(x.Default, token.UnaryPrec, depth)
 		}
 	case *ast.LambdaExpr:
+		if prec1 > token.LowestPrec {
+			// a lambda extends as far to the right as possible:
+			// as an operand it needs parentheses
+			p.print(token.LPAREN)
+			p.expr(x)
+			p.print(token.RPAREN)
+			break
+		}
 		if x.LhsHasParen {
 			p.print(token.LPAREN)
 			p.identList(x.Lhs, false)
@@ -1106,6 +1114,12 @@ func (p *printer) expr1(expr ast.Expr, prec1, depth int) {
 		}
 
 	case *ast.LambdaExpr2:
+		if prec1 > token.LowestPrec {
+			p.print(token.LPAREN)
+			p.expr(x)
+			p.print(token.RPAREN)
+			break
+		}
 		if x.LhsHasParen {
 			p.print(token.LPAREN)
 			p.identList(x.Lhs, false)
